@@ -24,11 +24,16 @@ StructClauses ==
    [ structure_ok   |-> DistinctSites(S) /\ PrimitiveCell(SG),
      group_complete |-> {O[n] : n \in 1..Len(O)} = SG /\ Len(O) = Cardinality(SG),
      atommap        |-> \A n \in 1..Len(O) : [k \in 1..Len(S) |-> Rec.amap[n][k] + 1] = AtomMap(S, O[n]),
-     shifts         |-> \A n \in 1..Len(O) : [k \in 1..Len(S) |-> Vec(Rec.tvec[n][k])] = TVec(S, O[n]),
+     (* the sign convention of the shifts is internal: p_map(a) - g(p_a) or its negative, the same for all operations *)
+     shifts         |-> \/ \A n \in 1..Len(O) : [k \in 1..Len(S) |-> Vec(Rec.tvec[n][k])] = TVec(S, O[n])
+                        \/ \A n \in 1..Len(O) : [k \in 1..Len(S) |-> VNeg(Vec(Rec.tvec[n][k]))] = TVec(S, O[n]),
      triple_images  |-> \A m \in 1..Len(Rec.rmap) : LET e == Rec.rmap[m] IN
                            TripleMap(S, O[e.op + 1], <<Vec(e.R), e.a + 1, e.b + 1>>) = <<Vec(e.R2), e.a2 + 1, e.b2 + 1>>,
-     irreducible    |-> {<<Vec(Rec.irr[m][1]), Rec.irr[m][2] + 1, Rec.irr[m][3] + 1>> : m \in 1..Len(Rec.irr)}
-                           = Irreducible(S, SG, RLs, A, B) ]
+     (* any set of representatives will do: inside the listed triples, and every orbit of listed triples is represented
+        (which member of an orbit is kept, and whether exactly one, is the implementation's choice) *)
+     irreducible    |-> LET I == {<<Vec(Rec.irr[m][1]), Rec.irr[m][2] + 1, Rec.irr[m][3] + 1>> : m \in 1..Len(Rec.irr)}
+                            X == Triples(RLs, A, B)
+                        IN I \subseteq X /\ \A x \in X : Orbit(S, SG, x) \cap I # {} ]
 SymmClauses ==
    LET S == Sites  SG == SpaceGroupOf(Rec.lat, S)
        (* inputs on which the per-orbital centre treatment cannot be exact (SymOrbits!MixedCentreSites) are judged by one clause *)
@@ -36,9 +41,10 @@ SymmClauses ==
        covariant == Rec.b_berry <= LimitBerry /\ Rec.b_centres <= Limit /\ Rec.b_idem <= Limit
    IN
    [ structure_ok   |-> DistinctSites(S) /\ PrimitiveCell(SG),
-     shells_allowed |-> \A k \in 1..Len(Rec.shells) : ShellAllowed(SG, Rec.shells[k]),
+     shells_allowed |-> \A k \in 1..Len(Rec.shells) : ShellAllowedIn(Rec.lat, SG, Rec.shells[k]),
      class_recorded |-> Rec.mixed_class = mixedClass,
-     group_size     |-> Rec.npoint = Cardinality({<<g.W, g.tr>> : g \in SG}),
+     (* the harness applies every (W, time reversal) of the specification's point group; it records their number *)
+     group_size     |-> Rec.nops = Cardinality({<<g.W, g.tr>> : g \in SG}),
      energy_symmetric |-> Rec.b_energy <= Limit,
      spin_covariant   |-> Rec.b_spin <= Limit,
      hermitian        |-> Rec.b_herm <= Limit,
